@@ -2,10 +2,135 @@
 
 package encoding
 
-import "diagonal.works/b6/verifrt"
+import (
+	"diagonal.works/b6/verifrt"
+)
 
-// Lemmas of the b6vc verifier (/verif). Parameters are universally
-// quantified; the bodies call the real functions.
+// Specification functions and lemmas of the b6vc verifier (/verif).
+// Spec functions are ordinary Go: the verifier translates them with the same
+// translator as production code, and replayed counterexamples execute them.
+
+// ---- uvarint wire format (encoding/binary) --------------------------------
+
+// uvlen is the length of the canonical uvarint encoding of v.
+func uvlen(v uint64) int {
+	if v < 1<<7 {
+		return 1
+	} else if v < 1<<14 {
+		return 2
+	} else if v < 1<<21 {
+		return 3
+	} else if v < 1<<28 {
+		return 4
+	} else if v < 1<<35 {
+		return 5
+	} else if v < 1<<42 {
+		return 6
+	} else if v < 1<<49 {
+		return 7
+	} else if v < 1<<56 {
+		return 8
+	} else if v < 1<<63 {
+		return 9
+	}
+	return 10
+}
+
+// uvLen is the number of bytes of the uvarint starting at b[p] (the first
+// byte below 0x80 ends it), or 0 if none ends within 10 bytes. It reads
+// b[p..p+10) without regard to len(b); callers state p+uvLen(b,p) <= len(b).
+func uvLen(b []byte, p int) int {
+	if b[p] < 0x80 {
+		return 1
+	} else if b[p+1] < 0x80 {
+		return 2
+	} else if b[p+2] < 0x80 {
+		return 3
+	} else if b[p+3] < 0x80 {
+		return 4
+	} else if b[p+4] < 0x80 {
+		return 5
+	} else if b[p+5] < 0x80 {
+		return 6
+	} else if b[p+6] < 0x80 {
+		return 7
+	} else if b[p+7] < 0x80 {
+		return 8
+	} else if b[p+8] < 0x80 {
+		return 9
+	} else if b[p+9] < 0x80 {
+		return 10
+	}
+	return 0
+}
+
+// uvOK: a uvarint that fits 64 bits starts at b[p].
+func uvOK(b []byte, p int) bool {
+	n := uvLen(b, p)
+	return n > 0 && (n < 10 || b[p+9] <= 1)
+}
+
+// uvVal is the value of the uvarint at b[p] (meaningful when uvOK).
+func uvVal(b []byte, p int) uint64 {
+	n := uvLen(b, p)
+	var x uint64
+	if n >= 1 {
+		x |= uint64(b[p]&0x7f) << 0
+	}
+	if n >= 2 {
+		x |= uint64(b[p+1]&0x7f) << 7
+	}
+	if n >= 3 {
+		x |= uint64(b[p+2]&0x7f) << 14
+	}
+	if n >= 4 {
+		x |= uint64(b[p+3]&0x7f) << 21
+	}
+	if n >= 5 {
+		x |= uint64(b[p+4]&0x7f) << 28
+	}
+	if n >= 6 {
+		x |= uint64(b[p+5]&0x7f) << 35
+	}
+	if n >= 7 {
+		x |= uint64(b[p+6]&0x7f) << 42
+	}
+	if n >= 8 {
+		x |= uint64(b[p+7]&0x7f) << 49
+	}
+	if n >= 9 {
+		x |= uint64(b[p+8]&0x7f) << 56
+	}
+	if n >= 10 {
+		x |= uint64(b[p+9]&0x7f) << 63
+	}
+	return x
+}
+
+// Frame lemma for the three functions above, proved with their definitions
+// revealed: they depend only on the uvLen(a,p) bytes starting at p (one byte
+// when no terminator is found). The verifier uses it as the frame axiom of
+// the opaque versions.
+func verifLemma_uv_frame(a []byte, b []byte, p int) {
+	verifrt.Assume(p >= 0 && p <= len(a)-10 && p <= len(b)-10)
+	n := uvLen(a, p)
+	verifrt.Assume(n > 0)
+	verifrt.Assume(a[p] == b[p])
+	verifrt.Assume(n < 2 || a[p+1] == b[p+1])
+	verifrt.Assume(n < 3 || a[p+2] == b[p+2])
+	verifrt.Assume(n < 4 || a[p+3] == b[p+3])
+	verifrt.Assume(n < 5 || a[p+4] == b[p+4])
+	verifrt.Assume(n < 6 || a[p+5] == b[p+5])
+	verifrt.Assume(n < 7 || a[p+6] == b[p+6])
+	verifrt.Assume(n < 8 || a[p+7] == b[p+7])
+	verifrt.Assume(n < 9 || a[p+8] == b[p+8])
+	verifrt.Assume(n < 10 || a[p+9] == b[p+9])
+	verifrt.Assert(uvLen(b, p) == n, "frame-len")
+	verifrt.Assert(uvOK(b, p) == uvOK(a, p), "frame-ok")
+	verifrt.Assert(uvVal(b, p) == uvVal(a, p), "frame-val")
+}
+
+// ---- C10 -----------------------------------------------------------------
 
 // C10: zigzag coding is invertible over the whole int64 domain.
 func verifLemma_C10_zigzag(d int64) {
